@@ -21,6 +21,9 @@ type c17Spec struct {
 	Optimized bool     `json:"optimized"`
 	Comp      lib.Comp `json:"comp"`
 	NFiles    int      `json:"nFiles"`
+	// Wide: an old build of more than 2049 files, so that series refer to old file indices whose value
+	// collides with other fields' magic values (2049 is the end-marker op type)
+	Wide bool `json:"wide"`
 }
 
 func c17Cases(tier string, seed uint64, flavor string) []lib.Case {
@@ -35,7 +38,35 @@ func c17Cases(tier string, seed uint64, flavor string) []lib.Case {
 		s := c17Spec{Seed: lib.Mix(seed, 17, uint64(i)), Optimized: i%2 == 1, Comp: comps[i%3], NFiles: 3 + i%7}
 		cases = append(cases, lib.Case{Seed: s.Seed, Kind: "whitelist", Spec: lib.MustSpec(s)})
 	}
+	for _, comp := range []lib.Comp{{Algo: "none"}, {Algo: "brotli", Quality: 1}} {
+		s := c17Spec{Seed: lib.Mix(seed, 170), Optimized: true, Comp: comp, Wide: true}
+		cases = append(cases, lib.Case{Seed: s.Seed, Kind: "whitelist-wide", Spec: lib.MustSpec(s)})
+	}
 	return cases
+}
+
+// c17WidePair: 2060 small old files; a handful of new files around old index 2049 are modified (each is
+// bsdiff-mapped to its own old file in the optimized patch), the rest unchanged.
+func c17WidePair(seed uint64) (*lib.Pair, []string) {
+	r := lib.NewRng(lib.Mix(seed, 1718))
+	p := &lib.Pair{Old: lib.NewBuild(), New: lib.NewBuild(), Feat: map[string]bool{}}
+	var kinds []string
+	for i := 0; i < 2060; i++ {
+		name := fmt.Sprintf("w/f%04d.bin", i)
+		d := lib.RandomBytes(int64(20+r.Intn(30)), r.Uint64())
+		p.Old.PutFile(name, d)
+		if i >= 2046 && i <= 2052 {
+			nd := append([]byte(nil), d...)
+			nd[3] ^= 0x11
+			nd = append(nd, byte(i))
+			p.New.PutFile(name, nd)
+			kinds = append(kinds, "patched")
+		} else {
+			p.New.PutFile(name, d)
+			kinds = append(kinds, "copy")
+		}
+	}
+	return p, kinds
 }
 
 // c17Pair builds n new files mixing the series kinds so that every adjacency occurs.
@@ -105,6 +136,9 @@ func c17Run(c lib.Case, env *lib.Env) lib.Result {
 	lib.ReadSpec(c, &s)
 	res := lib.Result{NonTrivial: true}
 	pair, kinds := c17Pair(s.Seed, s.NFiles)
+	if s.Wide {
+		pair, kinds = c17WidePair(s.Seed)
+	}
 	oldDir, newDir := filepath.Join(env.Scratch, "old"), filepath.Join(env.Scratch, "new")
 	pair.Old.Materialize(oldDir)
 	pair.New.Materialize(newDir)
@@ -144,7 +178,28 @@ func c17Run(c lib.Case, env *lib.Env) lib.Result {
 	}
 	// subsets: all 2^n for n <= 8, else structured + random
 	var subsets [][]int
-	if n <= 8 {
+	if s.Wide {
+		all := []int{}
+		for i := 0; i < n; i++ {
+			all = append(all, i)
+		}
+		without := func(skip ...int) []int {
+			var out []int
+			for _, i := range all {
+				keep := true
+				for _, k := range skip {
+					if i == k {
+						keep = false
+					}
+				}
+				if keep {
+					out = append(out, i)
+				}
+			}
+			return out
+		}
+		subsets = [][]int{nil, all, without(2049), without(2048), without(2047, 2049, 2051), {2050}, {2046, 2052}, {0, 2050, 2059}, without(2046, 2047, 2048, 2049, 2050, 2051, 2052)}
+	} else if n <= 8 {
 		for m := 0; m < 1<<uint(n); m++ {
 			var sub []int
 			for i := 0; i < n; i++ {
@@ -184,6 +239,9 @@ func c17Run(c lib.Case, env *lib.Env) lib.Result {
 		newFiles[i] = pair.New.E[f.Path].Data
 	}
 	desc := fmt.Sprintf("seed=%d optimized=%v comp=%s kinds=%v", s.Seed, s.Optimized, s.Comp, kinds)
+	if s.Wide {
+		desc = fmt.Sprintf("seed=%d optimized=%v comp=%s wide build: 2060 old files, new files 2046..2052 patched (bsdiff target = own index)", s.Seed, s.Optimized, s.Comp)
+	}
 	runOne := func(sub []int, nilWhitelist bool, withSaves bool, idx int) {
 		out := filepath.Join(env.Scratch, fmt.Sprintf("out%d", idx))
 		p, err := patcher.New(seeksource.FromBytes(patch), lib.Quiet())
@@ -319,7 +377,7 @@ func c17Run(c lib.Case, env *lib.Env) lib.Result {
 	}
 	// nil whitelist behaves as full; stop/resume on the same instance with a few subsets
 	runOne(nil, true, false, len(subsets))
-	for k := 0; k < 6 && k < len(subsets); k++ {
+	for k := 0; k < 6 && k < len(subsets) && !s.Wide; k++ {
 		runOne(subsets[(k*37+len(subsets)-1)%len(subsets)], false, true, len(subsets)+1+k)
 	}
 	res.Add("subsets", int64(len(subsets)))
@@ -333,8 +391,11 @@ func c17Run(c lib.Case, env *lib.Env) lib.Result {
 		}
 	}
 	res.Feat = []string{fmt.Sprintf("n=%d|opt=%v|%s|%v", n, s.Optimized, s.Comp.Algo, kinds)}
+	if s.Wide {
+		res.Feat = []string{fmt.Sprintf("wide|n=%d|%s", n, s.Comp.Algo)}
+	}
 	if c.ID < 3 {
-		res.Sample = map[string]interface{}{"seed": s.Seed, "files": n, "kinds": kinds, "optimized": s.Optimized, "comp": s.Comp.String(), "subsets": len(subsets), "all_subsets": n <= 8}
+		res.Sample = map[string]interface{}{"seed": s.Seed, "files": n, "kinds": headStr(kinds, 12), "optimized": s.Optimized, "comp": s.Comp.String(), "subsets": len(subsets), "all_subsets": n <= 8}
 	}
 	return res
 }
